@@ -219,6 +219,13 @@ def _shifted_parents(repo, fi, value):
         return "UNDECIDED", "not a concatenation over the cells"
     adds = [x for x in cat.walk() if x.op == "mcall" and x.name in ("add", "set") and x.args and x.args[0].op == "sub" and
             x.args[0].args[0].op == "attr" and x.args[0].args[0].name == "at"]
+    if not adds:
+        # the whole array of a cell shifted at once (`p + offset`): the root's -1 is shifted too and is no longer a root
+        whole = T.find(cat, lambda x: x.op == "binop" and x.name == "+" and any(
+            a_.op == "attr" and a_.name == "comb_parents" and a_.args[0].op == "elem" and _is_cells(a_.args[0].args[0]) for a_ in x.args))
+        if whole is not None and T.find(cat, lambda x: x.op == "mcall" and x.name in ("where", "maximum", "select")) is None:
+            return "VIOLATED", (f"`{whole.short(60)}` shifts EVERY entry of a cell's parents, the root's -1 included: from the second cell on the "
+                                f"root is no longer -1 but points at a branch of the cell before")
     if len(adds) != 1:
         return "UNDECIDED", f"{len(adds)} shifted blocks found"
     ad = adds[0]
